@@ -548,6 +548,140 @@ theorem read_fault_reported_tasks (c : XCtx S) (a : Api) (n : XNet G) (m : Mem) 
 
 end lawful
 
+/-! ## grace between the phases of the clean-up -/
+
+/-- `RestoreStableService` and the grace period: a call that did not set `LastUpdateTime` wrote nothing; with a
+    non-zero grace period a call that did returns *retry* (or an error) -/
+theorem rs_graceX (c : XCtx S) (a : Api) (n : XNet G) (m : Mem) :
+    ((restoreStableServiceX c a n m).touched = false → (restoreStableServiceX c a n m).writes = []) ∧
+    (c.graceSec ≠ 0 → (restoreStableServiceX c a n m).touched = true →
+      (restoreStableServiceX c a n m).err = true ∨ (restoreStableServiceX c a n m).done = true) := by
+  generalize ho : restoreStableServiceX c a n m = o
+  unfold restoreStableServiceX at ho
+  by_cases href : c.hasRef = true
+  · simp only [href, not_true_eq_false, if_false] at ho
+    rcases Api.read_cases a with ⟨hr, har, hr2⟩ | ⟨hr, hr2⟩
+    · rw [show a.read = (a.read.1, a.read.2) from rfl, hr] at ho
+      simp only [if_true, XOut.same] at ho
+      subst ho
+      exact ⟨fun _ => rfl, fun _ h => by cases h⟩
+    · rw [show a.read = (a.read.1, a.read.2) from rfl, hr] at ho
+      simp only [Bool.false_eq_true, if_false] at ho
+      generalize a.read.2 = a1 at hr2 ho
+      by_cases hex : n.stableExists = true
+      · simp only [hex, not_true_eq_false, if_false] at ho
+        by_cases hmod : (c.hasRevKey && decide (n.stableSel.getD "" ≠ "")) = true
+        · simp only [hmod, if_true] at ho
+          cases hsp : a1.spend with
+          | none =>
+            simp only [hsp, XOut.same] at ho
+            subst ho
+            exact ⟨fun _ => rfl, fun _ h => by cases h⟩
+          | some a2 =>
+            simp only [hsp] at ho
+            subst ho
+            refine ⟨(fun h => by cases h), fun hg _ => Or.inr ?_⟩
+            simp [runGrace, hg]
+        · simp only [hmod, Bool.false_eq_true, if_false] at ho
+          subst ho
+          exact ⟨fun _ => rfl, fun _ h => by cases h⟩
+      · have hex' : n.stableExists = false := by simpa using hex
+        simp only [hex', Bool.false_eq_true, not_false_eq_true, if_true, XOut.same] at ho
+        subst ho
+        exact ⟨fun _ => rfl, fun _ h => by cases h⟩
+  · have href' : c.hasRef = false := by simpa using href
+    simp only [href', Bool.false_eq_true, not_false_eq_true, if_true, XOut.same] at ho
+    subst ho
+    exact ⟨fun _ => rfl, fun _ h => by cases h⟩
+
+theorem rg_touched_stops (P : Provider S G) (c : XCtx S) (a : Api) (n : XNet G) (m : Mem) (hg : c.graceSec ≠ 0)
+    (h : (restoreGatewayX (some P) c a n m).touched = true) :
+    (restoreGatewayX (some P) c a n m).err = true ∨ (restoreGatewayX (some P) c a n m).done = true := by
+  generalize ho : restoreGatewayX (some P) c a n m = o at h ⊢
+  unfold restoreGatewayX runGrace at ho
+  simp only [hg, if_false] at ho
+  repeat' split at ho
+  all_goals (subst ho; simp_all [XOut.same, XOut.panicked])
+
+section lawful
+variable {P : Provider S G} {Inv : G → Prop} {spec : G → S → Prop} {clean : G → Prop}
+  {μ : G → S → Nat} {bound : Nat} (hL : LawfulProvider P Inv spec clean μ bound)
+include hL
+
+/-- **C04 / C05 (`finalisingX_grace_separates`)** — for every lawful provider and every non-zero grace period:
+    a `FinalisingTrafficRouting` call that un-pins the stable Service issues no other write, and a call that
+    reports a modification (of the stable Service or of a provider object) does not remove the canary Service:
+    the phases of the clean-up are separated by the grace period. (With grace 0 all three phases may run in one
+    call — `grace0_runs_through` below.) -/
+theorem finalisingX_grace_separates (c : XCtx S) (a : Api) (n : XNet G) (m : Mem) :
+    graceSeparatesX c (finalisingTrafficRoutingX (some P) c a n m) = true := by
+  unfold graceSeparatesX
+  by_cases hg : c.graceSec = 0
+  · simp [hg]
+  have hg' : (c.graceSec == 0) = false := by simpa using hg
+  rw [hg', Bool.false_or]
+  by_cases href : c.hasRef = true
+  · obtain ⟨_, _, _, aw, _⟩ := rs_specX c a n m
+    have as := (rs_graceX c a n m).2 hg
+    have aq := (rs_graceX c a n m).1
+    generalize hr1 : restoreStableServiceX c a n m = r1 at aw as aq
+    obtain ⟨_, _, _, bw, _⟩ := rg_specX hL c r1.a r1.net r1.mem
+    have bs := rg_touched_stops P c r1.a r1.net r1.mem hg
+    generalize hr2 : restoreGatewayX (some P) c r1.a r1.net r1.mem = r2 at bw bs
+    obtain ⟨_, _, _, cw, _⟩ := rc_specX c r2.a r2.net r2.mem
+    generalize hr3 : removeCanaryServiceX c r2.a r2.net r2.mem = r3 at cw
+    have nd2 : ¬ "deleteCanarySvc" ∈ r2.writes := fun h => by
+      have := bw _ h
+      revert this; decide
+    have nu2 : ¬ "unpinStable" ∈ r2.writes := fun h => by
+      have := bw _ h
+      revert this; decide
+    generalize ho : finalisingTrafficRoutingX (some P) c a n m = o
+    unfold finalisingTrafficRoutingX at ho
+    simp only [href, not_true_eq_false, if_false, hr1, hr2, hr3] at ho
+    by_cases h1 : r1.err = true ∨ r1.done = true
+    · simp only [h1, if_true] at ho
+      subst ho
+      rcases aw with e | e <;> simp [e]
+    · simp only [h1, if_false] at ho
+      have t1 : r1.touched = false := by
+        cases h : r1.touched
+        · rfl
+        · exact absurd (as h) h1
+      have w1 : r1.writes = [] := aq t1
+      cases hp2 : r2.panic
+      · simp only [hp2, Bool.false_eq_true, if_false] at ho
+        by_cases h2 : r2.err = true ∨ r2.done = true
+        · simp only [h2, if_true] at ho
+          subst ho
+          simp [w1, nu2, nd2]
+        · simp only [h2, if_false] at ho
+          have t2 : r2.touched = false := by
+            cases h : r2.touched
+            · rfl
+            · exact absurd (bs h) h2
+          have nu3 : ¬ "unpinStable" ∈ r3.writes := by rcases cw with e | e <;> rw [e] <;> decide
+          by_cases h3 : r3.err = true ∨ r3.done = true
+          · simp only [h3, if_true] at ho
+            subst ho
+            simp [w1, t1, t2, nu2, nu3]
+          · simp only [h3, if_false] at ho
+            subst ho
+            simp [w1, t1, t2, nu2, nu3]
+      · simp only [hp2, if_true] at ho
+        subst ho
+        -- a panicking provider call: no writes recorded
+        unfold restoreGatewayX at hr2
+        simp only [href, not_true_eq_false, if_false] at hr2
+        split at hr2
+        · rw [← hr2]; simp [XOut.panicked]
+        · split at hr2 <;> (rw [← hr2] at hp2; cases hp2)
+  · have href' : c.hasRef = false := by simpa using href
+    unfold finalisingTrafficRoutingX
+    simp [href']
+
+end lawful
+
 /-! ## match steps and steps with nothing to route -/
 
 /-- a step with neither a weight nor matches is done at once: nothing is read, nothing written, nothing changed -/
@@ -584,6 +718,27 @@ theorem finalisingX_order_full_FALSE :
   refine ⟨{ hasRef := true, grace := 0, strategy := (), disableGen := false, stableRev := "v1", canaryRev := "v2",
             lastUpdate := .none, hasRevKey := false },
           { stableExists := true, stableSel := some "v1", canarySvc := some "v2", g := () }, Mem.empty, rfl, by decide⟩
+
+/-- `finalisingX_grace_separates` is not vacuous, and its hypothesis "non-zero grace" is needed: with an explicit
+    `gracePeriodSeconds: 0` one call runs through all phases (un-pin, finalise, delete) and reports *done* … -/
+theorem grace0_runs_through :
+    ∃ (c : XCtx Unit) (n : XNet Unit) (m : Mem), c.graceSec = 0 ∧
+      (finalisingTrafficRoutingX (some idle) c Api.ok n m).writes = ["unpinStable", "deleteCanarySvc"] ∧
+      (finalisingTrafficRoutingX (some idle) c Api.ok n m).done = true := by
+  refine ⟨{ hasRef := true, grace := 0, strategy := (), disableGen := false, stableRev := "v1", canaryRev := "v2",
+            lastUpdate := .none, hasRevKey := true },
+          { stableExists := true, stableSel := some "v1", canarySvc := some "v2", g := () }, Mem.empty,
+          by decide, by decide, by decide⟩
+
+/-- … while with one second of grace the same call stops after the un-pin -/
+theorem grace1_stops_after_unpin :
+    ∃ (c : XCtx Unit) (n : XNet Unit) (m : Mem), c.graceSec = 1 ∧
+      (finalisingTrafficRoutingX (some idle) c Api.ok n m).writes = ["unpinStable"] ∧
+      (finalisingTrafficRoutingX (some idle) c Api.ok n m).done = false := by
+  refine ⟨{ hasRef := true, grace := 1, strategy := (), disableGen := false, stableRev := "v1", canaryRev := "v2",
+            lastUpdate := .none, hasRevKey := true },
+          { stableExists := true, stableSel := some "v1", canarySvc := some "v2", g := () }, Mem.empty,
+          by decide, by decide, by decide⟩
 
 /-! ## composite: all or nothing -/
 
